@@ -6,7 +6,7 @@ from concurrent.futures import ThreadPoolExecutor
 
 import vlib
 
-INVS = "TypeOK ClientSafe ClientComplete OnlyAcceptSelects"
+INVS = "TypeOK ClientSafe ClientComplete OnlyAcceptSelects SentOfConfigured UnsentNeverSettles SentDecides SentOnlyJudgesAccepts"
 
 
 def run(chk, replay=None):
@@ -14,39 +14,54 @@ def run(chk, replay=None):
                 "per-version magics, every format threshold and query flag, the responder may answer with any accept (each window "
                 "version proposed or not, an unknown version number, a version of a foreign table; data in either format of the "
                 "table, in a foreign format, a non-version-data CBOR item, or non-CBOR bytes; either magic), any refusal and any query "
-                "reply. TLC checks ClientSafe (finished => version proposed, data well-formed for it, magic = the one proposed for it), "
-                "ClientComplete and OnlyAcceptSelects on the repaired design, and must find the counterexample on the legacy design "
-                "(HandshakeAdvLegacy.cfg). Every run is replayed: a scripted raw peer on net.Pipe reads the ProposeVersions segment and "
+                "reply. 'Proposed' is what the ProposeVersions message held: the sent set snt is a dimension of the case (a subset of "
+                "the configured table; HandshakeAdvSent*.cfg enumerate every proper subset) and every verdict is taken on it. TLC checks "
+                "ClientSafe (finished => version was sent, data well-formed for it, magic = the one proposed for it), ClientComplete, "
+                "OnlyAcceptSelects, UnsentNeverSettles, SentDecides (the verdict is that of an initiator configured with exactly what "
+                "was sent) on the repaired design, and must find the counterexample on the legacy design (HandshakeAdvLegacy.cfg) and "
+                "on the design that checks an accept against its configuration whatever it sent (HandshakeAdvConfigured.cfg). Every "
+                "run in which the whole table is sent is replayed: a scripted raw peer on net.Pipe reads the ProposeVersions segment and "
                 "writes the hand-built reply segment, against handshake.Client (tables cut out of the node-to-node / node-to-client / "
-                "DMQ tables, threshold placed as in the case) and against ouroboros.NewConnection (full tables). A case is one "
+                "DMQ tables, threshold placed as in the case) and against ouroboros.NewConnection (full tables); the proposal read off "
+                "the wire is mapped back into the window and the run is judged by the specification's row with that sent set (the rows "
+                "with a proper subset are reached only by code that does not send its whole table). A case is one "
                 "(run, binding, table); non-trivial when the reply is an accept")
     chk.assumptions = [
         "well-formed = the CBOR shape of the version's data format (the three wire shapes of the handshake CDDL); value ranges inside a well-formed item (e.g. peer-sharing 2 on v13) are not part of the model",
         "how a refusal is worded by the initiator is C18's subject: here a refusal / query reply only must not select a version (differences are listed as observations)",
         "an initiator that did not ask and receives a query reply: the property is silent; observed behaviour is recorded, not judged",
+        "whether the proposal on the wire must be the configured table is C18's subject: a difference is recorded (coverage.observations), and the acceptance is judged against what was sent; an accept of a version the initiator sent without being configured with it (or with another magic than configured) is not judged",
     ]
     drv = vlib.go_build("c19")
     if replay:
         vlib.run_driver(chk, drv, ["-replay", replay], timeout=300)
         return
     cfg = "HandshakeAdv.cfg" if chk.tier == "quick" else "HandshakeAdvThorough.cfg"
+    # the dimension "what was sent": the runs in which a proper part of the configured table is on the wire
+    cfg_sent = "HandshakeAdvSent.cfg" if chk.tier == "quick" else "HandshakeAdvSentThorough.cfg"
 
     def tlc(c):
         return vlib.run_tlc("net/Handshake", cfg=c, timeout=400, workers=2)
-    with ThreadPoolExecutor(max_workers=2) as ex:
-        r, legacy = list(ex.map(tlc, [cfg, "HandshakeAdvLegacy.cfg"]))
-    vlib.tlc_must_pass(r, "Handshake/" + cfg)
-    chk.add_tlc(cfg, r)
-    # the invariant is not vacuous: the design the code had when the check was written violates it in the model
-    if legacy.ok or not legacy.violation or "ClientSafe" not in legacy.violation:
-        raise vlib.MachineryError("HandshakeAdvLegacy.cfg should violate ClientSafe: %r" % legacy)
-    chk.extra["legacy_design_counterexample"] = "TLC: Invariant ClientSafe is violated by ClientDesign = legacy (after %d states)" % legacy.distinct
-    src = os.path.join(r.dir, "rows.ndjson")
-    if not os.path.exists(src) or os.path.getsize(src) == 0:
-        raise vlib.MachineryError("Handshake/%s emitted no runs" % cfg)
-    rows = os.path.join(r.dir, cfg[:-4] + ".ndjson")
-    shutil.move(src, rows)
-    vlib.run_driver(chk, drv, [rows], timeout=900)
+    with ThreadPoolExecutor(max_workers=4) as ex:
+        r, rs, legacy, configured = list(ex.map(tlc, [cfg, cfg_sent, "HandshakeAdvLegacy.cfg", "HandshakeAdvConfigured.cfg"]))
+    files = []
+    for c, res in ((cfg, r), (cfg_sent, rs)):
+        vlib.tlc_must_pass(res, "Handshake/" + c)
+        chk.add_tlc(c, res)
+        src = os.path.join(res.dir, "rows.ndjson")
+        if not os.path.exists(src) or os.path.getsize(src) == 0:
+            raise vlib.MachineryError("Handshake/%s emitted no runs" % c)
+        dst = os.path.join(res.dir, c[:-4] + ".ndjson")
+        shutil.move(src, dst)
+        files.append(dst)
+    rows = files[0]
+    # the invariant is not vacuous: the design the code had when the check was written violates it in the model,
+    # and so does the design that looks an accepted version up in its configuration although it sent only a part of it
+    for name, res in (("legacy", legacy), ("configured", configured)):
+        if res.ok or not res.violation or "ClientSafe" not in res.violation:
+            raise vlib.MachineryError("HandshakeAdv%s.cfg should violate ClientSafe: %r" % (name.capitalize(), res))
+        chk.extra[name + "_design_counterexample"] = "TLC: Invariant ClientSafe is violated by ClientDesign = %s (after %d states)" % (name, res.distinct)
+    vlib.run_driver(chk, drv, files, timeout=900)
     if chk.tier == "thorough":
         # binding self-test: declare one honest-looking accept illegal and require the driver to object
         victim = None
